@@ -125,19 +125,26 @@ def lww_conflict(ctx):
     """LWWReg::validate_update returns Err exactly when the markers are equal and the values differ."""
     facts = ctx.facts
     body = ctx.inherent(LWWREG, 'validate_update')
-    it = interp(facts, body)
     roles = param_roles(facts, body)
     inv = {v: k for k, v in roles.items()}
     if set(inv) != {'val', 'marker'}:
         ctx.fail('validate_update', body, 'does not compare its arguments with both self.val and self.marker (%s)' % roles)
         return
+    errs, det = _lww_conflict_clause(facts, body, {f: ('param', inv[f]) for f in ('val', 'marker')})
+    ctx.check(not errs, 'validate_update', body, 'Err exactly under marker == ∧ value !=', errs[0] if errs else '', details=det)
+
+
+def _lww_conflict_clause(facts, body, incoming):
+    """body returns Err exactly when self.marker equals the incoming marker and self.val differs from the incoming value;
+    incoming = {'val': term, 'marker': term} (parameters of validate_update, or the fields of the incoming register)."""
+    it = interp(facts, body)
 
     def atom(t):
         if t[0] == 'call' and len(t[2]) == 2 and cinfo(t[1])['name'] in ('eq', 'ne'):
             a, b = versionless(t[2][0]), versionless(t[2][1])
             n = cinfo(t[1])['name']
             for f, var in (('marker', 'meq'), ('val', 'veq')):
-                if {a, b} == {('field', ('param', 1), f), ('param', inv[f])}:
+                if {a, b} == {('field', ('param', 1), f), incoming[f]}:
                     return var if n == 'eq' else ('not', var)
         return None
     errs_s = ret_sites_by(it, lambda v: is_variant(v, 'result::Result', 'Err'))
@@ -145,7 +152,13 @@ def lww_conflict(ctx):
     for meq in (True, False):
         for veq in (True, False):
             rc = Reach(facts, body, Evaluator(facts, bool_atom=atom, assumption={'meq': meq, 'veq': veq}))
-            res[(meq, veq)] = (any(b in rc.reachable for b, _ in errs_s), rc.must_pass([b for b, _ in errs_s]) if errs_s else False)
+            # what is returned on the surviving paths (the result may travel through a local: trace the definitions that reach it)
+            kinds = set()
+            for rb in [b for b in rc.return_blocks() if b in rc.reachable]:
+                for t_ in rc.reaching_terms(0, rb):
+                    for a_ in phi_alts(drop_lv(t_)):
+                        kinds.add('Err' if is_variant(a_, 'result::Result', 'Err') else 'Ok' if is_variant(a_, 'result::Result', 'Ok') else '?')
+            res[(meq, veq)] = (bool(kinds - {'Ok'}), kinds == {'Err'})
     det = {'(marker equal, value equal) -> (Err may, must)': {str(k): v for k, v in res.items()}}
     errs = []
     if not res[(True, False)][1]:
@@ -153,7 +166,7 @@ def lww_conflict(ctx):
     for k in ((True, True), (False, True), (False, False)):
         if res[k][0]:
             errs.append('a non-conflicting update (marker equal=%s, value equal=%s) is rejected' % k)
-    ctx.check(not errs, 'validate_update', body, 'Err exactly under marker == ∧ value !=', errs[0] if errs else '', details=det)
+    return errs, det
 
 
 def _routes_to(facts, ctx, body, target_names, want_roles, inst, props, arg_base=2, whole_op=False):
@@ -206,6 +219,11 @@ def lww_route(ctx):
             errs, det, found = _lww_assign_clause(facts, body)
             if found and not errs:
                 ok, msg = True, 'stores (other.val, other.marker) itself under self.marker < other.marker'
+        if not ok and targets == {'validate_update'}:
+            # no delegation: the conflict test may be written out here (or validate_update inlined)
+            errs, det = _lww_conflict_clause(facts, body, {f: ('field', ('param', 2), f) for f in ('val', 'marker')})
+            if not errs:
+                ok, msg = True, 'flags exactly an equal marker with a different value itself'
         ctx.check(ok, name, body, msg, 'LWWReg::%s %s' % (name, msg), props=props)
 
 
